@@ -48,4 +48,4 @@ package extgrpc
 //@ func encodeGrpcStatus
 //@   props C03
 //@   ensures[C03] safeSeq(result1)
-//@   loop 1: invariant safeSeq(details)
+//@   loop 1: invariant[C03] safeSeq(details)
